@@ -234,3 +234,24 @@ func verifClientPushPeek[T any](h Heap[T], v T) {
 //@   props C15
 //@   requires h.inner != nil
 //@   ensures fresh(result) && result.(*heap.heapIterator[T]).h == h.inner && result.(*heap.heapIterator[T]).gen == -1
+
+//@ func PriorityQueue.Grow
+//@   props C05
+//@   requires pqInv(h)
+//@   modifies h.inner.a
+//@   panics when n < 0
+//@   ensures pqInv(h) && len(h.inner.a) == old(len(h.inner.a)) && h.inner.gen == old(h.inner.gen)
+//@   ensures forall k int {h.inner.a[k]} :: 0 <= k && k < len(h.inner.a) ==> h.inner.a[k] == old(h.inner.a[k])
+
+// the compare -> less adaptation must be `compare(a, b) < 0` (a comparator may return any negative number)
+//@ func NewPriorityQueueCmp
+//@   props C05
+//@   requires compare != nil
+//@   requires (forall a P {compare(a, a)} :: compare(a, a) == 0)
+//@   requires (forall a P, b P {compare(a, b)} :: (compare(a, b) < 0) == (compare(b, a) > 0))
+//@   requires (forall a P, b P, c P {compare(a, b), compare(b, c)} :: compare(a, b) <= 0 && compare(b, c) <= 0 ==> compare(a, c) <= 0)
+//@   requires (forall a P, b P, c P {compare(a, b), compare(b, c)} :: compare(a, b) < 0 && compare(b, c) <= 0 ==> compare(a, c) < 0)
+//@   requires (forall a P, b P, c P {compare(a, b), compare(b, c)} :: compare(a, b) <= 0 && compare(b, c) < 0 ==> compare(a, c) < 0)
+//@   modifies elems(initial)
+//@   ensures pqInv(result) && fresh(result.inner) && fresh(result.m)
+//@   ensures forall t int {old(initial[t])} :: 0 <= t && t < len(initial) ==> inHeap(result, old(initial[t]).K)
